@@ -1,3 +1,4 @@
+import GenlmModel.Proofs.GenLink.WfsaEps
 import Batteries.Tactic.Alias
 import GenlmModel.Proofs.Wfsa
 import GenlmModel.Proofs.Wfsa2
@@ -29,4 +30,8 @@ alias epsremove_hypotheses_satisfiable := Genlm.epsremove_epsStarL
 /-- total weight = sum over all strings of the path sums = start-weighted least backward solution -/
 alias total_weight_is_sum_over_strings := Genlm.tsum_PL_eq_totalWeight
 alias backward_is_least_solution := Genlm.bwdL_least
+
+/-! ## re-checked tie to the source: the definitions REGENERATED from the Python functions on every run
+(`Generated/Builders.lean` / `Generated/Folds.lean`, by `harness/translate.py`) are the hand-written models the theorems here are about -/
+alias gen_WFSA_epsremove_eq_model := Genlm.gen_WFSA_epsremove_eq_model
 end Genlm.Props.C11
